@@ -154,6 +154,7 @@ chord_shorthand_meaning = {  # Triads Augmented chords Suspended chords Sevenths
     "m9": " minor ninth",
     "7#11": " lydian dominant seventh",
     "m11": " minor eleventh",
+    "M11": " major eleventh",
     "M13": " major thirteenth",
     "m13": " minor thirteenth",
     "13": " dominant thirteenth",
@@ -435,6 +436,16 @@ def minor_eleventh(note):
     ['C', 'Eb', 'G', 'Bb', 'F']
     """
     return minor_seventh(note) + [intervals.perfect_fourth(note)]
+
+
+def major_eleventh(note):
+    """Build a major eleventh chord on note.
+
+    Example:
+    >>> major_eleventh('C')
+    ['C', 'E', 'G', 'B', 'D', 'F']
+    """
+    return major_ninth(note) + [intervals.perfect_fourth(note)]
 
 
 def minor_thirteenth(note):
@@ -1377,6 +1388,7 @@ chord_shorthand = {  # Triads Augmented chords Suspended chords Sevenths Sixths
     "m9": minor_ninth,
     "7#11": lydian_dominant_seventh,
     "m11": minor_eleventh,
+    "M11": major_eleventh,
     "M13": major_thirteenth,
     "m13": minor_thirteenth,
     "13": dominant_thirteenth,
